@@ -193,6 +193,11 @@ impl<T: RealNumber> RandomForestRegressor<T> {
 
         let mut rng = StdRng::seed_from_u64(parameters.seed);
         let mut trees: Vec<DecisionTreeRegressor<T>> = Vec::new();
+        #[cfg(smartcore_verif)]
+        {
+            VERIF_FOREST_TRACE.with(|v| v.borrow_mut().clear());
+            crate::tree::decision_tree_regressor::VERIF_TREE_VARS.with(|v| v.borrow_mut().clear());
+        }
 
         let mut maybe_all_samples: Option<Vec<Vec<bool>>> = Option::None;
         if parameters.keep_samples {
@@ -200,7 +205,19 @@ impl<T: RealNumber> RandomForestRegressor<T> {
         }
 
         for _ in 0..parameters.n_trees {
+            #[cfg(smartcore_verif)]
+            VERIF_FOREST_TRACE.with(|v| {
+                let seen = crate::tree::decision_tree_regressor::VERIF_TREE_VARS
+                    .with(|t| t.borrow().len());
+                v.borrow_mut().push((Vec::new(), Vec::new(), seen))
+            });
             let samples = RandomForestRegressor::<T>::sample_with_replacement(n_rows, &mut rng);
+            #[cfg(smartcore_verif)]
+            VERIF_FOREST_TRACE.with(|v| {
+                if let Some(e) = v.borrow_mut().last_mut() {
+                    e.1 = samples.clone()
+                }
+            });
             if let Some(ref mut all_samples) = maybe_all_samples {
                 all_samples.push(samples.iter().map(|x| *x != 0).collect())
             }
@@ -290,10 +307,24 @@ impl<T: RealNumber> RandomForestRegressor<T> {
         let mut samples = vec![0; nrows];
         for _ in 0..nrows {
             let xi = rng.gen_range(0..nrows);
+            #[cfg(smartcore_verif)]
+            VERIF_FOREST_TRACE.with(|v| {
+                if let Some(e) = v.borrow_mut().last_mut() {
+                    e.0.push(xi)
+                }
+            });
             samples[xi] += 1;
         }
         samples
     }
+}
+
+#[cfg(smartcore_verif)]
+thread_local! {
+    /// verification hook: one entry per tree of the most recent `fit` on this thread:
+    /// (bootstrap draws in order, sample counts handed to the tree, number of records in the
+    /// tree module's VERIF_TREE_VARS before the tree was grown)
+    pub static VERIF_FOREST_TRACE: std::cell::RefCell<Vec<(Vec<usize>, Vec<usize>, usize)>> = std::cell::RefCell::new(Vec::new());
 }
 
 #[cfg(test)]
